@@ -3,6 +3,7 @@ package engine
 import (
 	"encoding/json"
 	"fmt"
+	"math/rand"
 	"os"
 	"sort"
 	"strings"
@@ -108,6 +109,31 @@ func RunE1(c *Ctx, spec E1Spec) []*e1.Outcome {
 			c.Rep.Count("context_variants_of_directed_programs", len(ctx))
 			spec.Programs = append(spec.Programs, ctx...)
 		}
+	}
+	// conditions that hold per FILE or per PACKAGE (is a name used anywhere, is this the first generator, how many
+	// files are there) are masked when ~120 programs share a package: a PRNG sample of the stream is additionally
+	// compiled alone, each program in a package (and file) of its own
+	if os.Getenv("COVERIF_NOALONE") == "" && spec.Judge == nil {
+		rng := rand.New(rand.NewSource(c.Seed*7919 + 17))
+		n := 12
+		if c.Thorough() {
+			n = 48
+		}
+		var pool []*e1.Program
+		for _, p := range spec.Programs {
+			if !p.Isolate && !strings.Contains(p.Name, "+alone") {
+				pool = append(pool, p)
+			}
+		}
+		for i := 0; i < n && len(pool) > 0; i++ {
+			k := rng.Intn(len(pool))
+			q := *pool[k]
+			pool = append(pool[:k], pool[k+1:]...) // without replacement: names stay unique
+			q.Name += "+alone"
+			q.Isolate = true
+			spec.Programs = append(spec.Programs, &q)
+		}
+		c.Rep.Count("programs_additionally_compiled_alone", n)
 	}
 	progs := spec.Programs
 	if c.Only != "" {
